@@ -81,14 +81,15 @@ def attrsWellNsB (scope : Scope) (attrs : List NSAttr) : Bool :=
   (declsOf attrs).all (fun d => !reservedDecl d.1 d.2) &&
   decide ((declsOf attrs).map Prod.fst).Nodup &&
   decide ((attrsOf scope attrs).map Prod.fst).Nodup &&
-  (ordinary attrs).all (fun a => a.pfx.text.isEmpty || (scope.lookup a.pfx.text).isSome)
+  (ordinary attrs).all (fun a => a.pfx.text.isEmpty || (scope.lookup a.pfx.text).isSome) &&
+  attrs.all (fun a => !a.pfx.bareColon)
 
 theorem attrsWellNsB_sound (scope : Scope) (attrs : List NSAttr) (h : attrsWellNsB scope attrs = true) :
     attrsWellNs scope attrs := by
   simp only [attrsWellNsB, Bool.and_eq_true, List.all_eq_true, decide_eq_true_eq, Bool.or_eq_true,
     Bool.not_eq_true'] at h
-  obtain ⟨⟨⟨⟨h1, h0⟩, h2⟩, h3⟩, h4⟩ := h
-  refine ⟨fun a ha => wellSpelledB_sound _ (h1 a ha), h0, h2, h3, ?_⟩
+  obtain ⟨⟨⟨⟨⟨h1, h0⟩, h2⟩, h3⟩, h4⟩, h5⟩ := h
+  refine ⟨fun a ha => wellSpelledB_sound _ (h1 a ha), h0, h2, h3, ?_, h5⟩
   intro a ha hne
   rcases h4 a ha with h | h
   · exact absurd (List.isEmpty_iff.mp h) hne
@@ -100,9 +101,11 @@ def NSNode.wellB : Scope → NSNode → Bool
     attrsWellNsB (scope.push (declsOf attrs)) attrs &&
     ((scope.push (declsOf attrs)).lookup pfx.text).isSome &&
     cpfx.text == pfx.text && cloc.text == loc.text &&
-    noAdjCharsNs kids && wellListB (scope.push (declsOf attrs)) kids
+    noAdjCharsNs kids && wellListB (scope.push (declsOf attrs)) kids &&
+    !pfx.bareColon && !cpfx.bareColon
   | scope, .empty pfx _ _ attrs _ =>
-    attrsWellNsB (scope.push (declsOf attrs)) attrs && ((scope.push (declsOf attrs)).lookup pfx.text).isSome
+    attrsWellNsB (scope.push (declsOf attrs)) attrs && ((scope.push (declsOf attrs)).lookup pfx.text).isSome &&
+    !pfx.bareColon
   | _, .chars parts => parts.all SPart.wellB
   | _, .comment _ _ => true
   | _, .pi target _ _ => !isReservedPiTarget target.text
@@ -114,12 +117,12 @@ where
 mutual
 theorem NSNode.wellB_sound : ∀ (n : NSNode) (scope : Scope), n.wellB scope = true → n.Well scope
   | .elem pfx loc _ attrs _ kids cpfx cloc _, scope, h => by
-    simp only [NSNode.wellB, Bool.and_eq_true, beq_iff_eq] at h
-    obtain ⟨⟨⟨⟨⟨h1, h2⟩, h3⟩, h4⟩, h5⟩, h6⟩ := h
-    exact ⟨attrsWellNsB_sound _ _ h1, h2, h3, h4, h5, NSNode.wellListB_sound kids _ h6⟩
+    simp only [NSNode.wellB, Bool.and_eq_true, beq_iff_eq, Bool.not_eq_true'] at h
+    obtain ⟨⟨⟨⟨⟨⟨⟨h1, h2⟩, h3⟩, h4⟩, h5⟩, h6⟩, h7⟩, h8⟩ := h
+    exact ⟨attrsWellNsB_sound _ _ h1, h2, h3, h4, h5, NSNode.wellListB_sound kids _ h6, h7, h8⟩
   | .empty pfx _ _ attrs _, scope, h => by
-    simp only [NSNode.wellB, Bool.and_eq_true] at h
-    exact ⟨attrsWellNsB_sound _ _ h.1, h.2⟩
+    simp only [NSNode.wellB, Bool.and_eq_true, Bool.not_eq_true'] at h
+    exact ⟨attrsWellNsB_sound _ _ h.1.1, h.1.2, h.2⟩
   | .chars parts, _, h => by
     simp only [NSNode.wellB, List.all_eq_true] at h
     exact fun p hp => SPart.wellB_sound p (h p hp)
